@@ -44,7 +44,9 @@ Mechs == <<
    inputs |-> <<"ep_headers", "issuer", "kid">>,
    shifts |-> <<"issuer|kid">>, hdr |-> TRUE, val |-> FALSE, hdrdef |-> 1],
   [m |-> "jwt_finalizer", policy |-> <<>>,
-   inputs |-> <<"signer_kid", "signer_name", "claims", "ttl", "subject_id", "subject_attr", "outputs", "signer_first_key">>,
+   (* signer_reload: one finalizer, its key store replaced (another key first) and reloaded in between *)
+   inputs |-> <<"signer_kid", "signer_name", "claims", "ttl", "subject_id", "subject_attr", "outputs", "signer_first_key",
+                "signer_reload">>,
    shifts |-> <<"signer_kid|signer_name">>, hdr |-> FALSE, val |-> FALSE, hdrdef |-> 0],
   (* scopes_late: the scopes are overridden by a variant created from the same prototype after the *)
   (* prototype has been executed                                                                   *)
@@ -55,7 +57,7 @@ Mechs == <<
    inputs |-> <<"client_id", "client_secret", "token_url", "scopes">>,
    shifts |-> <<"client_id|client_secret", "token_url|scopes", "scopes.a|b">>, hdr |-> FALSE, val |-> TRUE, hdrdef |-> 0],
   [m |-> "httpcache", policy |-> <<>>,
-   inputs |-> <<"url", "method", "authorization", "body">>,
+   inputs |-> <<"url", "method", "authorization", "body", "url_case", "url_query_case">>,
    shifts |-> <<"url|method">>, hdr |-> FALSE, val |-> FALSE, hdrdef |-> 0]
 >>
 
